@@ -143,12 +143,15 @@ PROPS["C15"] = {
 
 def _gnet_go_rewrite(src, out):
     s = open(src).read()
-    for a, b in [("url.Parse(", "vstubURLParse("), ("strings.ReplaceAll(protoAddr,", "vstubReplaceAll(protoAddr,"),
+    # every strings.ReplaceAll call of the file is redirected (not only the one on protoAddr): when the escaping step is
+    # rewritten or removed the harness still builds and the escape-before-parse oracle decides (round-4 change C16-r4m1)
+    s = s.replace("strings.ReplaceAll(", "vstubReplaceAll(")
+    for a, b in [("url.Parse(", "vstubURLParse("),
                  ("path.Join(u.Host,", "vstubPathJoin(u.Host,"), ("runtime.NumCPU()", "vstubNumCPU()")]:
         if a not in s:
             raise RuntimeError("rewrite anchor %r not found in gnet.go" % a)
         s = s.replace(a, b)
-    s += "\n// keep the imports of the redirected calls alive\nvar (\n\t_ = url.Parse\n\t_ = path.Join\n)\n"
+    s += "\n// keep the imports of the redirected calls alive\nvar (\n\t_ = url.Parse\n\t_ = path.Join\n\t_ = strings.ReplaceAll\n)\n"
     open(out, "w").write(s)
 
 
